@@ -146,8 +146,8 @@ func (r *raceState) access(t *thread, loc interface{}, write bool, atomic bool) 
 }
 
 func (m *machine) curFuncName(t *thread) string {
-	if t.curFn != "" {
-		return t.curFn
+	if t.fn != nil {
+		return t.fn.Name()
 	}
 	return "?"
 }
